@@ -76,7 +76,7 @@ pub struct Interp<'tcx> {
     pub taint_track: bool,
     pub memo: HashMap<(Instance<'tcx>, Vec<(i128, i128, u8)>), (Vec<Val>, Vec<(String, Vec<String>)>)>,
     pub memo_hits: u64,
-    pub pmemo: HashMap<Instance<'tcx>, Vec<(Vec<Val>, Vec<Val>, Vec<(String, Vec<String>)>)>>,
+    pub pmemo: HashMap<Instance<'tcx>, Vec<(Vec<Val>, Vec<Val>, Vec<(String, Vec<String>)>, Vec<Probe>, Vec<Val>)>>,
     pub pmemo_hits: u64,
     pub prof: BTreeMap<String, (u64, u128)>,
     pub trace_on: bool,
